@@ -27,11 +27,13 @@ type Scenario struct {
 	Opts  []Opt             `json:"opts,omitempty"`
 	Env   map[string]string `json:"env,omitempty"` // {A} {B} {C}: addresses of the collectors
 	Slow  bool              `json:"slow,omitempty"`
+	Retry bool              `json:"retry,omitempty"` // leave the exporter's default retry policy on
 
 	IntOpts    map[string]int64 `json:"int_opts,omitempty"`
 	N          int              `json:"n,omitempty"`
 	LimitsOpts []LimitsOpt      `json:"limits_opts,omitempty"`
 	SamplerOpt string           `json:"sampler_opt,omitempty"`
+	Via        string           `json:"via,omitempty"`   // bsp/blrp: "" (processor driven directly), provider, nonblocking, nilexporter
 	Probe      bool             `json:"probe,omitempty"` // blrp: wait for an export triggered by the queue length
 }
 
@@ -49,6 +51,7 @@ type Result struct {
 	MaxBatch  int     `json:"max_batch,omitempty"`
 	Total     int     `json:"total,omitempty"`
 	Limits    []int64 `json:"limits,omitempty"`
+	EnvLimits []int64 `json:"env_limits,omitempty"`
 	Decisions []bool  `json:"decisions,omitempty"`
 	Triggered bool    `json:"triggered,omitempty"`
 }
@@ -95,7 +98,7 @@ func runExporter(sc *Scenario, res *Result) {
 	if sc.Kind == "comp7" {
 		raw = 7
 	}
-	newErr, expErr := exportOnce(sc.Fam, sc.Proto, opts, raw)
+	newErr, expErr := exportOnce(sc.Fam, sc.Proto, opts, raw, sc.Retry)
 	if newErr != nil {
 		res.NewErr = newErr.Error()
 	}
